@@ -605,4 +605,4 @@ package larking
 //@   requires s != nil && s.w != nil && s.codec != nil && impl(m, "proto.Message") && impl(s.w, "http.Flusher")
 //@   requires s.opts.maxSendMessageSize <= 4294967295
 //@   witness verifWitnessGRPCSend
-//@   ensures [refused-only-over-send-limit C08] at `return fmt.Errorf("grpc: received message larger than max (%d vs. %d)", size, s.opts.maxReceiveMessageSize)` len(b#1) - 5 > s.opts.maxSendMessageSize
+//@   ensures [refused-only-over-send-limit C08] at `return fmt.Errorf("grpc: sent message larger than max (%d vs. %d)", size, s.opts.maxSendMessageSize)` len(b#1) - 5 > s.opts.maxSendMessageSize
